@@ -348,6 +348,21 @@ func runC13(c *Ctx, w *World, r *Report) {
 					return // the first (masked) word is not in a loop
 				}
 				nscan++
+				// every word between the first one and the far end is examined, nearest first: the counter moves one
+				// word per round towards the far end (forward for NextOne, backward for PrevOne)
+				{
+					want := int64(1)
+					if isPos {
+						want = 64
+					}
+					if n != "bitmap.NextOne" {
+						want = -want
+					}
+					if iv.Step != want {
+						badE = fmt.Sprintf("the word scan moves its counter by %d per round, expected %d: words are skipped or the scan runs away from the range", iv.Step, want)
+						return
+					}
+				}
 				if n == "bitmap.NextOne" {
 					if !iv.HasN && !isPos && iv.HasScaledN && iv.Scale == 64 {
 						// word counter k guarded by its position: 64*k < M visits every word that starts before M
